@@ -619,7 +619,171 @@ def stream_guards(chk, i, rng):
     chk.count(("guards", kind, replay["object"], replay["names"]))
 
 
-STREAMS = {"fit": (stream_fit, 500, 8000), "built": (stream_built, 400, 8000), "guards": (stream_guards, 150, 1000)}
+# ------------------------------------------------------------------ input representations (lessons R3 §1, §3)
+def representations(P):
+    """(label, object handed to predict) for the float64 C-contiguous reference P.  Every representation holds
+    exactly the values of P (integer / bool / float32 ones only when the values allow it)."""
+    P = np.ascontiguousarray(P, dtype=np.float64)
+    integral = bool(np.all(P == np.round(P))) and bool(np.all(np.abs(P) < 2 ** 31))
+    binary = bool(np.all((P == 0) | (P == 1)))
+    f32 = bool(np.all(P.astype(np.float32).astype(np.float64) == P))
+    reps = [("float64-C", P.copy())]
+    if integral:
+        reps += [("int64", P.astype(np.int64)), ("int32", P.astype(np.int32)),
+                 ("int64-fortran", np.asfortranarray(P.astype(np.int64))), ("int-list", P.astype(np.int64).tolist())]
+        ro = P.astype(np.int64)
+        ro.setflags(write=False)
+        reps.append(("int64-readonly", ro))
+    if binary:
+        reps += [("bool", P.astype(bool)), ("bool-list", P.astype(bool).tolist())]
+    if f32:
+        reps += [("float32", P.astype(np.float32)), ("float32-fortran", np.asfortranarray(P.astype(np.float32)))]
+    reps.append(("fortran", np.asfortranarray(P)))
+    reps.append(("strided-rows", np.repeat(P, 2, axis=0)[::2]))
+    reps.append(("reversed-cols", P[:, ::-1].copy()[:, ::-1]))
+    reps.append(("transposed", P.T.copy().T))
+    ro = P.copy()
+    ro.setflags(write=False)
+    reps.append(("readonly", ro))
+    reps.append(("list", P.tolist()))
+    reps.append(("tuple", tuple(tuple(r) for r in P.tolist())))
+    return reps
+
+
+def snapshot(obj):
+    if isinstance(obj, np.ndarray):
+        return ("a", obj.dtype.str, obj.shape, obj.strides, obj.flags.writeable, obj.tobytes())
+    return ("l", repr(obj))
+
+
+def frac_threshold(rng):
+    """fractional thresholds, mostly negative, all exact in float32 (multiples of 1/8)"""
+    k = int(rng.integers(-9, 9))
+    fr = float(rng.choice([0.5, 0.5, 0.5, 0.125, 0.25, 0.375, 0.75, 0.875]))
+    v = k + fr
+    return -abs(v) if rng.random() < 0.6 else v
+
+
+def stream_repr(chk, i, rng):
+    """predict on the same VALUES in other representations (integer / bool / float32 dtypes, memory layouts,
+    read-only, lists) must equal the float64 answer, the rules read from the printed text and the model; the
+    trees have fractional (mostly negative) thresholds so that a cast of the threshold to the data dtype shows."""
+    d = int(rng.integers(1, 5))
+    kind = ["built", "fit"][i % 2]
+    if kind == "built":
+        tree = Tree()
+        m = int(rng.integers(1, 9))
+        for _ in range(m):
+            leaves = [k for k in range(tree.n_nodes) if tree.children_left[k] == -1]
+            thr = float(rng.choice([0.5, -0.5])) if rng.random() < 0.15 else frac_threshold(rng)
+            tree._add_child(int(rng.choice(leaves)), Split(1.0, 0, int(rng.integers(0, 5)), int(rng.integers(0, 5)), int(rng.integers(0, d)), thr, False))
+        est = Kauri(max_clusters=2).fit(np.array([[0.0] * d, [1.0] * d]))
+        est.tree_ = tree
+        replay = {"kind": kind, "d": d}
+    else:
+        n = int(rng.integers(6, 30))
+        # half-unit grid, strictly fractional: every threshold the fit can choose is k + 0.5
+        X = rng.integers(-9, 9, size=(n, d)).astype(float) + 0.5
+        if rng.random() < 0.3:
+            X[:, 0] = rng.choice([-0.5, 0.5], size=n)
+        kw = dict(max_clusters=int(rng.integers(2, 6)), max_depth=None if rng.random() < 0.5 else int(rng.integers(1, 5)),
+                  random_state=int(rng.integers(0, 10 ** 6)))
+        est = Kauri(**kw).fit(X)
+        replay = {"kind": kind, "d": d, "kauri": kw, "X": X.tolist()}
+    tree = est.tree_
+    replay["tree"] = tree_dict(tree)
+    out = run_print(est)
+    if out[0] != "P":
+        chk.fail("repr:print-raised", f"print_kauri_tree raised {out[2]}", replay, layer="L3")
+        chk.count(None)
+        return
+    try:
+        root = read_text(out[1])
+    except (ReadError, ValueError) as e:
+        chk.fail("repr:unreadable", f"independent reader fails: {e}", dict(replay, text=out[1]), layer="L3")
+        chk.count(None)
+        return
+    rules = rule_nodes(root)
+    cuts = [(resolve_default(r["label"]), float(r["thr"])) for r in rules]
+    # integer points: around every cut trunc / floor / ceil and their neighbours; binary points; float points on the cuts
+    ints = [rng.integers(-10, 10, size=d).astype(float) for _ in range(6)]
+    for f, thr in cuts[:10]:
+        for v in {math.trunc(thr), math.floor(thr), math.ceil(thr), math.floor(thr) - 1, math.ceil(thr) + 1}:
+            p = rng.integers(-10, 10, size=d).astype(float)
+            p[f] = float(v)
+            ints.append(p)
+            # the same value on every cut of that feature's path: all other coordinates at their own trunc(threshold)
+            q = np.array([float(math.trunc(next((t for g, t in cuts if g == j), 0.0))) for j in range(d)])
+            q[f] = float(v)
+            ints.append(q)
+    bins = [rng.integers(0, 2, size=d).astype(float) for _ in range(6)] + [np.zeros(d), np.ones(d)]
+    flts = [np.round(rng.normal(size=d) * 4 * 8) / 8 for _ in range(6)]
+    for f, thr in cuts[:10]:
+        for v in (thr, thr - 0.125, thr + 0.125):
+            p = np.round(rng.normal(size=d) * 4 * 8) / 8
+            p[f] = v
+            flts.append(p)
+    nontrivial = False
+    for gname, pts in (("int", ints), ("bin", bins), ("flt", flts)):
+        P = np.array(pts, dtype=np.float64)
+        ref = [int(v) for v in est.predict(P.copy())]
+        try:
+            want = [apply_rules(root, x, resolve_default) for x in P]
+        except ReadError as e:
+            chk.fail("repr:reader-eval", f"nested rules do not classify a point: {e}", replay, layer="L3")
+            continue
+        t = chk.ask(f"c19.eval {enc_tree(tree)} A {len(P)} {d} " + " ".join(hx(v) for v in P.ravel()))
+        t.bool()
+        mres = [(t.opt(t.int), t.opt(t.int)) for _ in range(len(P))]
+        if any(mp != w for (_, mp), w in zip(mres, want)):
+            chk.fail("repr:model-vs-rules", "model predict differs from the rules read from the text (float64 values)", replay)
+        for label, rep in representations(P):
+            before = snapshot(rep)
+            try:
+                got = [int(v) for v in est.predict(rep)]
+            except Exception as e:  # noqa
+                chk.fail("repr:predict-raised", f"predict raised {type(e).__name__} on representation {label} although the float64 call succeeds: {e}",
+                         dict(replay, representation=label, points=P.tolist()), layer="L3")
+                continue
+            chk.dist[f"repr:{label}"] += 1
+            if snapshot(rep) != before:
+                chk.fail("repr:argument-mutated", f"predict changed its argument (representation {label})", dict(replay, representation=label), layer="L3")
+            bad = [j for j in range(len(P)) if got[j] != want[j]]
+            if bad:
+                j = bad[0]
+                node_cuts = [(f, thr) for f, thr in cuts]
+                chk.fail("repr:predict-vs-printed-rules",
+                         f"representation {label}: predict assigns cluster {got[j]} to point {P[j].tolist()} but the printed rules (and float64 predict={ref[j]}) "
+                         f"assign {want[j]}; cuts (feature, threshold) = {node_cuts[:6]}",
+                         dict(replay, representation=label, point=P[j].tolist(), predict=got[j], printed_rules=want[j], float64_predict=ref[j], text=out[1]), layer="L3")
+            elif got != ref:
+                chk.fail("repr:predict-vs-float64", f"representation {label}: predict differs from predict on the float64 copy of the same values",
+                         dict(replay, representation=label, points=P.tolist()), layer="L3")
+            if label.startswith(("int", "bool")) and any(t != math.trunc(t) for _, t in cuts):
+                nontrivial = True
+    # feature_names in other representations: same text, argument untouched
+    if cuts:
+        L = max(f for f, _ in cuts) + 1 + int(rng.integers(0, 3))
+        base = [f"name {j}" for j in range(L)]
+        ref_txt = run_print(est, list(base))
+        ro = np.array(base)
+        ro.setflags(write=False)
+        for label, names in (("names-tuple", tuple(base)), ("names-ndarray-readonly", ro), ("names-object-array", np.array(base, dtype=object)),
+                             ("names-strided", np.array([v for b in base for v in (b, "skip")])[::2])):
+            before = snapshot(names) if isinstance(names, np.ndarray) else ("l", repr(names))
+            got = run_print(est, names)
+            chk.dist[f"repr:{label}"] += 1
+            if got != ref_txt:
+                chk.fail("repr:names-representation", f"print_kauri_tree with {label} differs from the same names as a list", dict(replay, representation=label), layer="L3")
+            after = snapshot(names) if isinstance(names, np.ndarray) else ("l", repr(names))
+            if after != before:
+                chk.fail("repr:argument-mutated", f"print_kauri_tree changed its feature_names argument ({label})", dict(replay, representation=label), layer="L3")
+    chk.dist[f"repr:{kind}"] += 1
+    chk.count(("repr", kind, tuple(cuts)) if nontrivial else None)
+
+
+STREAMS = {"fit": (stream_fit, 500, 8000), "built": (stream_built, 400, 8000), "guards": (stream_guards, 150, 1000),
+           "repr": (stream_repr, 120, 1500)}
 
 
 def main():
@@ -643,7 +807,7 @@ def main():
                     "occasional re-split of an inner node); for each tree: default print and 5-7 feature_names variants (too short, one short, exact, "
                     "longer, duplicates, numeric, names with spaces/operators; list/tuple/ndarray) lexed and compared token-for-token with the extracted "
                     "model, independent stack reader applied to training/fresh/on-threshold/one-ulp points vs predict, named print vs default print line "
-                    "by line; guard stream: foreign objects, unfitted, fit-raised, non-array names. evaluations = trees / guard cases (points read back are counted in the distribution); "
+                    "by line; guard stream: foreign objects, unfitted, fit-raised, non-array names; repr stream: built and fitted trees with fractional (mostly negative) thresholds queried with the same values as int64/int32/bool/float32 (exactly representable), Fortran, strided, read-only arrays, lists and tuples (points at trunc/floor/ceil of every cut and on the cuts): predict = printed rules = float64 predict = model, arguments unchanged; feature_names as tuple/read-only/object/strided arrays. evaluations = trees / guard cases (points read back are counted in the distribution); "
                     "non-trivial = tree with at least one split (or a guard case); distinct = distinct (node count, depth, used features, d, K) / op sequence")
 
 
